@@ -125,8 +125,15 @@ package node
 
 // Inserting an event through the core runs the hashgraph pipeline and, for an event of this node, moves head/seq
 // to it; a refused event moves neither. The pools are not touched by either function.
+// G_inserted(e): ghost mark of an event object whose insertion through insertEventAndRunConsensus succeeded (set only
+// there, never cleared). core.sync may record as a peer's head only such an event: a head that is not in the hashgraph
+// makes every later self-event that names it fail ("other-parent not known") and is never replaced (seed C08-6).
+//@ ghost field *hg.Event inserted bool
 //@ func (c *core) insertEventAndRunConsensus(event *hg.Event, setWireInfo bool) error
 //@   safety on
+//@   ghostset G_inserted(event) := true when ret0 == nil
+//@   ensures[inserted]      ret0 == nil ==> G_inserted(event)
+//@   ensures[inserted-mono] forall e *hg.Event :: old(G_inserted(e)) ==> G_inserted(e)
 //@   ensures[sets]    (old(c.peers) != nil ==> c.peers != nil) && (old(c.validators) != nil ==> c.validators != nil) && (old(c.peerSelector) != nil ==> c.peerSelector != nil)
 //@   requires c != nil && c.hg != nil && c.validator != nil && c.validator.Key != nil && event != nil && len(event.Body.Parents) == 2 && c.hg.ConsensusReady()
 //@   ensures[ready]   c.hg == old(c.hg) && c.hg.ConsensusReady()
@@ -193,6 +200,10 @@ package node
 //@   ensures[pools-kept] !__called("recordHeads") ==> __eq(c.transactionPool, old(c.transactionPool)) && __eq(c.internalTransactionPool, old(c.internalTransactionPool))
 //@   loop 1 invariant[ready] c.hg == old(c.hg) && c.hg.ConsensusReady() && c.validator == old(c.validator) && c.selfBlockSignatures == old(c.selfBlockSignatures) && c.heads != nil && (old(c.peers) != nil ==> c.peers != nil) && (old(c.peerSelector) != nil ==> c.peerSelector != nil) && c.promises != nil
 //@   loop 1 invariant[pools-kept] __eq(c.transactionPool, old(c.transactionPool)) && __eq(c.internalTransactionPool, old(c.internalTransactionPool))
+//@   loop 1 invariant[head-inserted] otherHead != nil ==> G_inserted(otherHead)
+//@   loop 1 invariant[heads-shrink] forall id uint32 :: __in(id, c.heads) ==> old(__in(id, c.heads)) && c.heads[id] == old(c.heads[id])
+//@   call recordHeads assert[head-inserted] __in(fromID, c.heads) && c.heads[fromID] != nil && c.heads[fromID] != old(c.heads[fromID]) ==> G_inserted(c.heads[fromID])
+//@   ensures[head-inserted] !__called("recordHeads") && __in(fromID, c.heads) && c.heads[fromID] != nil && c.heads[fromID] != old(c.heads[fromID]) ==> G_inserted(c.heads[fromID])
 
 // ------------------------------------------------------------------------------------------------
 // RPC gate and suspension (C17), handlers (C08)
